@@ -315,6 +315,18 @@ func (tr *TemplateRecord) unmarshalOpts(r *reader.Reader) error {
 	return nil
 }
 
+// recordLen returns the length of a data record described by the template
+func (tr *TemplateRecord) recordLen() int {
+	n := 0
+	for _, f := range tr.ScopeFieldSpecifiers {
+		n += int(f.Length)
+	}
+	for _, f := range tr.FieldSpecifiers {
+		n += int(f.Length)
+	}
+	return n
+}
+
 func (d *Decoder) decodeData(tr TemplateRecord) ([]DecodedField, error) {
 	var (
 		fields []DecodedField
@@ -435,8 +447,13 @@ func (d *Decoder) decodeSet(mem MemCache, msg *Message) error {
 		}
 	}
 
-	// the next set should be greater than 4 bytes otherwise that's padding
-	for err == nil && (int(setHeader.Length)-(d.reader.ReadCount()-startCount) > 4) && d.reader.Len() > 4 {
+	// whatever is left in the flowset and is shorter than one record is padding;
+	// for template flowsets a record needs more than 4 bytes
+	minLen := 5
+	if setHeader.FlowSetID > 255 && err == nil {
+		minLen = tr.recordLen()
+	}
+	for err == nil && (int(setHeader.Length)-(d.reader.ReadCount()-startCount) >= minLen) && d.reader.Len() >= minLen {
 		if setId := setHeader.FlowSetID; setId == 0 || setId == 1 {
 			// Template record or template option record
 			tr := TemplateRecord{}
